@@ -505,7 +505,7 @@ def header_cases(rng, n):
         h = W.rand_header(rng)
         h[3] = rng.choice([T0, T0 + 7200, T0 + 7201, 0, 0xffffffff, rng.getrandbits(32)])
         h[4] = rng.choice([REGTEST_BITS, 0x1d00ffff, 0x1d010000, 0x207fffff, 0x20800000, 0x2100ffff, 0x21008000, 0,
-                           0x1c800000, 0x01800000, 0x03000001, 0x04000100, rng.getrandbits(32)])
+                           0x1c800000, 0x01800000, 0x03000001, 0x04000100, 0x21017fff, 0x2201007f, 0x23000001, 0x2100ffff + 0x010000, rng.getrandbits(32)])
         if rng.random() < 0.6:
             mine(rng, h, want=rng.random() < 0.8, tries=200)
         add(cases, 1603, [rng.randrange(4), h, rng.choice([0, 1, 1]), rng.choice([T0, T0 + 1, h[3] - 7200, h[3] - 7201])], 'hdr')
